@@ -98,5 +98,5 @@ class BestFitQuery(ChildQuery):
                    SELECT id 
                    FROM children, best 
                    WHERE children.parent_id = best.parent_id 
-                   AND children.max_log_likelihood = best.max_log_likelihood;
+                   AND children.max_log_likelihood = best.max_log_likelihood
                """
